@@ -6,10 +6,15 @@
    The harness runs the real Processor and hands over (a) the document as it
    is after that call (a missing path has been created and holds the
    right-hand document itself), (b) the locations of the yielded nodes.
-   Modelled: the per-target dispatch, `target_node is rhs`, the root
-   replacement (`self.data = merged_data` only for the root path; elsewhere
-   the target object as it is after the in-place merge stays in the tree),
-   "a merge was not performed".  Targets are assumed pairwise non-nested. *)
+   Modelled: the per-target dispatch, `target_node is rhs`, _set_merge_result
+   (the RETURNED merge result is stored: `self.data = merged_data` for the root
+   path, `parent[parentref] = merged_data` elsewhere when it is another object
+   than the target -- fix 6840572; before it only in-place mutations reached
+   the document away from the root), the Scalar-into-Scalar route
+   `lhs_proc._apply_change(insert_at, node_coord, rhs)` which changes THIS
+   target only (fix c8dbfd9; before it `set_value(insert_at, rhs)` re-evaluated
+   the path and overwrote every match), "a merge was not performed".
+   Targets are assumed pairwise non-nested. *)
 From Coq Require Import List Ascii String ZArith NArith Bool.
 From YP Require Import Outcome PyStr PyVal Doc PathParser Searches MergeConfig Merge.
 Import ListNotations.
@@ -45,34 +50,21 @@ Definition merge_target (is_root : bool) (rhs t : node) : outcome node :=
     match rhs, t with
     | NLeaf _ rv, NLeaf ti _ =>
         if is_root then Ok rhs
-        else Ok (NLeaf ti rv)                          (* lhs_proc.set_value(insert_at, rhs): the value changes *)
+        else Ok (NLeaf ti rv)                          (* lhs_proc._apply_change(insert_at, node_coord, rhs): the value changes *)
     | _, _ =>
+        (* _set_merge_result: the returned node takes the target's place (it IS
+           the target, as the in-place merge left it, unless a RIGHT rule or a
+           UNIQUE re-build returned another object) *)
         do m <- insert_any lit cfg t rhs;
-        Ok (if is_root then ret m else inplace m)
+        Ok (ret m)
     end.
-
-Definition target_kind_is (p : node -> bool) (doc : node) (t : loc) : bool :=
-  match lookup doc t with Some n => p n | None => false end.
-
-(* A Scalar merged at a non-root path that has a Scalar target: _insert_scalar
-   calls lhs_proc.set_value(insert_at, rhs), which re-evaluates the WHOLE path
-   and overwrites every match -- also the Array / Set targets the loop merged
-   into (known finding F-C11-2).  A Hash target still raises. *)
-Definition scalar_clobbers (is_root : bool) (targets : list loc) (doc rhs : node) : bool :=
-  negb is_root && is_leaf rhs && existsb (target_kind_is is_leaf doc) targets
-  && negb (existsb (target_kind_is (fun n => same_obj n rhs) doc) targets).
 
 Definition merge_at (is_root : bool) (targets : list loc) (doc rhs : node) : outcome node :=
   if is_none rhs then Ok doc
   else
     match targets with
     | [] => Raise MergeExc                             (* "A merge was not performed." *)
-    | _ =>
-        if scalar_clobbers is_root targets doc rhs then
-          if existsb (target_kind_is is_map doc) targets then Raise MergeExc
-          else foldM (fun d t => update_at t (fun old =>
-                        Ok (NLeaf (node_info old) (match rhs with NLeaf _ v => v | _ => PNone end))) d) targets doc
-        else foldM (fun d t => update_at t (merge_target is_root rhs) d) targets doc
+    | _ => foldM (fun d t => update_at t (merge_target is_root rhs) d) targets doc
     end.
 
 End WithConfig.
